@@ -44,12 +44,12 @@ Theorem C15_tensor_roundtrip : forall s dims elems rest,
   tensor_ok s dims elems ->
   dec (tensor_fmt s) (tensor_stream s dims elems ++ rest) = Some (mk_tensor s dims elems, rest) /\
   enc (tensor_fmt s) (mk_tensor s dims elems) = tensor_stream s dims elems.
-Proof. intros. split; [apply s_tensor_roundtrip|apply tensor_stream_enc]; assumption. Qed.
+Proof. exact s_tensor_roundtrip_enc. Qed.
 Print Assumptions C15_tensor_roundtrip.
 
 Theorem C15_tensor_prefix_rejected : forall s dims elems p q,
   tensor_ok s dims elems -> q <> [] -> tensor_stream s dims elems = p ++ q -> dec (tensor_fmt s) p = None.
-Proof. intros s dims elems p q Hok Hq E. apply (s_tensor_prefix_rejected s dims elems p Hok). exists q. auto. Qed.
+Proof. exact s_tensor_prefix_rejected'. Qed.
 Print Assumptions C15_tensor_prefix_rejected.
 
 (* version, rank, sizeof(scalar) or the stored hash replaced by any other value: rejected *)
